@@ -794,6 +794,14 @@ func getTextContentRecursive(n *html.Node, checker *exclusionChecker, result *st
 		if n.Data == "br" {
 			result.WriteString("\n")
 		}
+		// ... and in front of them, unless there is one already:
+		// "Label<div>value</div>" is two words
+		switch n.Data {
+		case "p", "div", "li", "h1", "h2", "h3", "h4", "h5", "h6", "tr":
+			if s := result.String(); s != "" && !strings.HasSuffix(s, " ") && !strings.HasSuffix(s, "\n") {
+				result.WriteString(" ")
+			}
+		}
 	}
 	for c := n.FirstChild; c != nil; c = c.NextSibling {
 		// Skip navigation/boilerplate nested inside a content element
